@@ -178,6 +178,21 @@ def specDoc (cfg : Cfg) : AcDoc → Ctx → (ln count ns : Nat) → (evs : List 
         | .refused e => (e :: evs2, .error (ln2 + 1))
         | .pass ev' _ _ => specDoc cfg rest c (ln2 + 1) (count + (n2 + 1) + 1) ns' (ev'.toList ++ evs2)
 
+/-- the value of the local `newsectionid` after the lines of `d` (meaningful when they all pass):
+    the id of the last registered section opened on this level -/
+def nsAfter (cfg : Cfg) : AcDoc → Ctx → Nat → Nat
+  | .nil, _, ns => ns
+  | .line (.blank _) rest, c, ns => nsAfter cfg rest c ns
+  | .line (.comment _ _) rest, c, ns => nsAfter cfg rest c ns
+  | .line (.dir args _) rest, c, ns =>
+    match judgeLine cfg c otypeOption ns (args.map (·.2.text)) with
+    | .pass _ _ ns' => nsAfter cfg rest c ns'
+    | _ => ns
+  | .sect o _ _ rest, c, ns =>
+    match judgeLine cfg c otypeOpen ns o.texts with
+    | .pass _ _ ns' => nsAfter cfg rest c ns'
+    | _ => ns
+
 /-- the expected outcome of `parse` on the rendered document -/
 def specNested (cfg : Cfg) (d : AcDoc) : List Event × FRes :=
   match specDoc cfg d Ctx.root 0 0 0 [] with
